@@ -10,7 +10,7 @@ CHECK = {'title': 'A configuration that validates can be run',
               'real InitializeObjects + Evaluate on every accepted one, against an independent reference validity predicate; real CLI on a sample',
  'rule': 'one case = one generated YAML file taken through viper.Reset, InitConfig, DetectAndReadConfigFile, LoadConfig, Validate in-process. '
          'Space: ALL curve digraphs (adjacency matrices incl. self-loops; sinks are linear curves, other nodes function curves over their successors) '
-         'on 1..3 nodes (quick) / 1..4 nodes (thorough, 65 536 matrices on 4 nodes); chains, rings, diamonds and chain-plus-every-back-edge '
+         'on 1..3 nodes (quick) / 1..4 nodes (thorough, 65 536 matrices on 4 nodes, plus all 1 048 576 digraphs without self-loops on 5 nodes); chains, rings, diamonds and chain-plus-every-back-edge '
          '(ring with tail, every cycle length 1..n at every position) on 5..8 nodes; 8 function types (6 real, unknown, missing) x 9 member lists '
          '(0 members as `[]`, missing key, null; 1,2,3 members in block and flow form) x nested or not; 10 step forms (min/max, list of maps, map, '
          'singleton, `{}`, `[]`, null, none) x 3 sensor kinds; duplicate and missing ids for fans, sensors, curves; every subset of back-ends per '
@@ -28,7 +28,7 @@ CHECK = {'title': 'A configuration that validates can be run',
                  'case-unique prefix instead; prometheus.DefaultRegisterer is replaced by a fresh registry per case'],
  'level_text': 'complete enumeration of the stated finite spaces of configurations (all digraphs up to 3/4 curve nodes, graph families to 8 nodes, every '
                'documented form and the listed defects) through the real YAML loader, validator, object initialisation and curve evaluation',
- 'level_note': 'bounded: graph size (all digraphs only up to 4 nodes), one defect class per non-graph case, fixed numeric values inside the forms; '
+ 'level_note': 'bounded: graph size (all digraphs only up to 4 nodes, loop-free ones to 5), one defect class per non-graph case, fixed numeric values inside the forms; '
                'hwmon instantiation uses a stand-in machine',
  'needs_cli': True,
  'runs': [{'pkg': 'cmd/config', 'test': 'TestVX_C11', 'shards_quick': 8, 'shards_thorough': 16}]}
